@@ -137,6 +137,12 @@ func genConfig(r *hk.Rng, maxPoints int) *config {
 			c.FlushAt[i] = append(c.FlushAt[i], [2]int{r.Intn(nf), r.Intn(len(c.Tables))})
 		}
 	}
+	// class "GROUP BY functions of partition keys" (keyfn.go): a table with explicit partition
+	// keys among its own dims, and dim values that collide under prefix / split / length
+	// functions; drawn from a generator of their own so that the rest of the case is unchanged
+	r2 := hk.NewRng(r.Next())
+	ensureKeyedTable(r2, c)
+	enrichDims(r2, c)
 	return c
 }
 
@@ -153,6 +159,7 @@ type qspec struct {
 	SubSQL  string    // text of the IN-subquery, "" = none
 	SubTbl  *TableDef
 	Offset  bool // LIMIT offset, count
+	HasLen  bool // some GROUP BY expression uses LEN( (known finding C11-len-declared-one-to-one)
 }
 
 func fmtTime(t time.Time) string { return t.UTC().Format(time.RFC3339Nano) }
